@@ -76,7 +76,15 @@ func (session *BasicHttpSubSession) Write(b []byte) {
 			PayloadLength: uint64(len(b)),
 			Masked:        false,
 		}
-		session.write(MakeWsFrameHeader(wsHeader))
+		// The frame header and its payload must reach the connection as ONE write: the connection drops
+		// whole writes when its queue is full, so two writes could deliver a header without its payload
+		// (or a payload without its header) and desynchronise the WebSocket frame stream.
+		h := MakeWsFrameHeader(wsHeader)
+		frame := make([]byte, len(h)+len(b))
+		copy(frame, h)
+		copy(frame[len(h):], b)
+		session.write(frame)
+		return
 	}
 	session.write(b)
 }
